@@ -116,6 +116,9 @@ func (pr *Prover) typeRange(t types.Type) (lo, hi int64, ok bool) {
 
 // lin expresses v as term+offset. Value-preserving conversions are transparent.
 func (pr *Prover) lin(v ssa.Value) lin {
+	if cv := canonPhi(v); cv != v {
+		return pr.lin(cv)
+	}
 	switch x := v.(type) {
 	case *ssa.Const:
 		if c, ok := constInt(x); ok {
@@ -348,6 +351,10 @@ func (pr *Prover) defFacts(fs *factSet, v ssa.Value, depth int) {
 	if v == nil || depth > 12 {
 		return
 	}
+	if cv := canonPhi(v); cv != v {
+		pr.defFacts(fs, cv, depth+1)
+		return
+	}
 	key := fmt.Sprintf("%p", v)
 	if fs.seen[key] {
 		return
@@ -510,6 +517,10 @@ func (pr *Prover) defFacts(fs *factSet, v ssa.Value, depth int) {
 // lenFacts: facts about len(s)/cap(s) of slice value s.
 func (pr *Prover) lenFacts(fs *factSet, s ssa.Value, depth int) {
 	if depth > 12 {
+		return
+	}
+	if cv := canonPhi(s); cv != s {
+		pr.lenFacts(fs, cv, depth+1)
 		return
 	}
 	key := fmt.Sprintf("len%p", s)
@@ -700,14 +711,9 @@ func (pr *Prover) collect(at ssa.Instruction, operands ...ssa.Value) *factSet {
 	fs := &factSet{cong: map[string]congruence{}, seen: map[string]bool{}}
 	// F1: dominating branch edges
 	b := at.Block()
-	for x := b; x != nil; x = x.Idom() {
-		if len(x.Preds) == 1 {
-			p := x.Preds[0]
-			if iff, ok := p.Instrs[len(p.Instrs)-1].(*ssa.If); ok && p.Succs[0] != p.Succs[1] {
-				pr.condFacts(fs, iff.Cond, p.Succs[0] == x, "branch "+pr.P.pos(instrPos(iff)))
-				pr.nilEdgeFacts(fs, iff.Cond, p.Succs[0] == x)
-			}
-		}
+	for _, ec := range allEntryConds(b) {
+		pr.condFacts(fs, ec.Cond, ec.Val, "branch "+pr.P.pos(ec.Cond.Pos()))
+		pr.nilEdgeFacts(fs, ec.Cond, ec.Val)
 	}
 	// F2: definitions of the operands
 	for _, o := range operands {
@@ -721,7 +727,7 @@ func (pr *Prover) collect(at ssa.Instruction, operands ...ssa.Value) *factSet {
 		}
 	}
 	// executed slice/index instructions that dominate `at` contribute their success facts
-	for x := b; x != nil; x = x.Idom() {
+	for x := b; x != nil; x = tIdomOf(x) {
 		for _, in := range x.Instrs {
 			if x == b && !instrDominates(in, at) {
 				break
